@@ -16,7 +16,11 @@ theorems (Props/C08.v; models Elab/Nets.v, Elab/Writers.v; proofs Elab/NetsProof
                                    "names for each net exactly one writer": acceptor on pymtl3's (writer, net) list in its
                                    resolution order: writer is a member, is justified (least fixed point), and no other
                                    member is a constant or shares a bit with anything driven outside the net
-  C08_net_drives_no_bit_twice      acceptor: the readers of one net denote pairwise disjoint bits
+  C08_net_drives_no_bit_twice      acceptor net_disjoint_ok: the readers of one net denote pairwise disjoint bits (none of them the
+                                   writer's, none wider than the writer)
+  C08_net_values                   "in simulation every member of a net carries the writer's value": for an accepted net the net
+                                   block (copy the writer's bits onto each reader in turn, any order) makes every reader equal to
+                                   the writer and leaves the writer untouched (model of the generated net block)
 tie (T-acc + T-diff): random hierarchies (1-3 levels, Bits/struct signals, slices, fields, constants, 1-30 connects also
   through child ports, update blocks), each elaborated under 10-20 statement permutations / side flips / syntax variants
   in-process (PYTHONHASHSEED=0) and a subset under PYTHONHASHSEED=1,2 in fresh interpreters; nets canonicalised as sets
@@ -24,8 +28,9 @@ tie (T-acc + T-diff): random hierarchies (1-3 levels, Bits/struct signals, slice
   not from pymtl3; nets_ok / writer_ok / net_disjoint_ok are evaluated inside Coq on what get_all_value_nets() returned.
   Outcomes (nets+writers or exception class) must be identical across all variants.  Simulation (DefaultPassGroup):
   after sim_eval_combinational every member of every net equals the writer, for random inputs.
-partial: "in simulation every member carries the writer's value" is checked differentially only (no theorem about the
-  generated net blocks); the iterative resolution algorithm itself is not modelled - its RESULT is certified per run.
+partial: C08_net_values is about a bit-copy model of the net block; that the generated net blocks / shared residence objects
+  of GenDAGPass+PrepareSimPass behave like it is checked differentially (simulation) only.  The iterative resolution
+  algorithm itself is not modelled - its RESULT is certified per run by writer_ok and compared across statement orders.
 """
 from common import *
 import elab_common as ec
@@ -341,7 +346,7 @@ def simulate(ctx, d, top, nets, src, tag):
       except Exception as e:
         ctx.violation(f'C08:harness-simvalue:{d.name}', f'cannot read simulated value: {e!r}', {'design_source': src}, found_input=False); return True
       if bad:
-        key = 'C08:same-net-overlapping-slices' if 'same-net-overlap' in d.features else f'C08:net-value:{ec.dhash(src)}'
+        key = 'C08:same-net-overlapping-slices' if 'same-net-overlap' in d.features else feature_key(d, src, 'net-value')
         ctx.violation(key, f'design {d.name} ({tag}): after sim_eval_combinational members of the net written by {w} differ from the writer: writer={wv:#x}, members={[(m, hex(v)) for m, v in bad[:4]]} (inputs {vals})',
                       {'design_source': src, 'net_writer': w, 'net_members': ms, 'writer_value': wv, 'differing_members': bad, 'inputs': vals})
         return True
@@ -350,7 +355,8 @@ def simulate(ctx, d, top, nets, src, tag):
 def feature_key(d, src, kind):
   """stable key for the one understood root cause (a block writing a struct and one of its fields makes the result of
   writer resolution depend on set iteration order); everything else is keyed by the design text"""
-  if 'blk-parent+field' in d.features and kind in ('order-dependent', 'hashseed-dependent'):
+  if 'blk-parent+field' in d.features and kind in ('order-dependent', 'hashseed-dependent', 'writer', 'net-value'):
+    # also the accepted-although-doubly-driven manifestations (acceptor 'writer' failure, differing simulated values)
     return 'C08:same-block-parent-and-field-write'
   return f'C08:{kind}:{ec.dhash(src)}'
 
@@ -449,7 +455,7 @@ def run(ctx):
 def main(ctx):
   ctx.trusted += ['harness/elab_common.py: design generator (the connection graph and the bit intervals of end points come from the generator and are cross-checked against pymtl3 metadata), canonicalisation of nets by repr() names']
   ctx.assumptions += ['the iterative writer resolution of _resolve_value_connections is not modelled; its result is certified per run by writer_ok (in resolution order) and compared across statement orders',
-                      '"every member carries the writer\'s value" is a differential simulation check (DefaultPassGroup, 3 random input vectors per elaborated variant), not a theorem',
+                      'C08_net_values is a theorem about a bit-copy model of the net block; that the net blocks generated by GenDAGPass/PrepareSimPass behave like that model is a differential simulation check (DefaultPassGroup, 3 random input vectors per elaborated variant)',
                       'PYTHONHASHSEED is varied in fresh interpreters on a third of the designs (3 variants each); in-process variants shift the allocator between elaborations because pymtl3 iterates sets of objects hashed by address']
   ctx.build_props(extra_models=['theories/Elab/Nets.vo', 'theories/Elab/Writers.vo'])
   try:
